@@ -3,16 +3,33 @@ namespace Yaclib.CoSharedMutex
 
 set_option maxHeartbeats 4000000 in
 theorem inv_step_6 {cfg s l s'} (hi : Inv cfg s) (hs : Step s l s') (hg : grpOf l = 6) : Inv cfg s' := by
-  cases hi
   cases hs with
-  | twCasOk c h hW hR => sm_dbg [List.count_le_length]
-  | twCasFail c h hne => by_cases ht' : curOp s c = .tryWr <;> simp only [failW, ht', ↓reduceIte] <;> sm_dbg [List.count_le_length]
+  | twCasOk c h hW hR =>
+      have hpwn : s.pw = .none := by
+        have h5 := hi.j5
+        cases hp : s.pw.isSome
+        · exact PW.eq_none_of_isSome hp
+        · rw [hW, hp] at h5; simp at h5 <;> omega
+      cases hi
+      sm_auto [List.count_le_length]
+  | twCasFail c h hne =>
+      cases hi
+      by_cases ht' : curOp s c = .tryWr <;> simp only [failW, ht', ↓reduceIte] <;> sm_auto [List.count_le_length]
   | wrFadd c h hs =>
+      have hpb := pendBy_none_of_held hi hs (by rw [h]; rfl)
+      have hpd := hi.pend_none hpb
       by_cases hW : s.W = 0
-      · by_cases hR : s.R = 0
-        · simp only [doWrFadd, hW, hR, ↓reduceIte]; sm_dbg [List.count_le_length]
-        · simp only [doWrFadd, hW, hR, ↓reduceIte]; sm_dbg [List.count_le_length]
-      · simp only [doWrFadd, hW, ↓reduceIte]; sm_dbg [List.count_le_length]
+      · have hpwn : s.pw = .none := by
+          have h5 := hi.j5
+          cases hp : s.pw.isSome
+          · exact PW.eq_none_of_isSome hp
+          · rw [hW, hp] at h5; simp at h5 <;> omega
+        cases hi
+        by_cases hR : s.R = 0
+        · simp only [doWrFadd, hW, hR, ↓reduceIte]; sm_auto [List.count_le_length]
+        · simp only [doWrFadd, hW, hR, ↓reduceIte]; sm_auto [List.count_le_length]
+      · cases hi
+        simp only [doWrFadd, hW, ↓reduceIte]; sm_auto [List.count_le_length]
   | _ => simp [grpOf] at hg
 
 end Yaclib.CoSharedMutex
